@@ -7,6 +7,7 @@ import RsMatterVerif.Lemmas.CodecBtpBdx
 import RsMatterVerif.Lemmas.CodecQr
 import RsMatterVerif.Lemmas.CodecCheckIn
 import RsMatterVerif.Lemmas.CodecBleAdv
+import RsMatterVerif.Lemmas.CodecDerRead -- D16d
 /-!
 # C17 — headers, onboarding payloads and discovery records decode what was encoded
 
@@ -289,5 +290,127 @@ example : BleAdv.WF { vid := 0xFFF1, pid := 0x8000, disc := 0xF00, additional :=
 theorem ble_adv_parse_total (adv : List Nat) :
     NoPanic (BleAdv.parseAdv adv) ∧ NoPanic (BleAdv.parseServiceData adv) :=
   ⟨BleAdv.parseAdv_np adv, BleAdv.parseServiceData_np adv⟩
+
+/-! ## (D16d) DER reading layer under `attest/cd.rs`, `cert/x509/cert.rs`, `cert/x509/csr.rs` (crate `der` 0.7.10)
+and rs-matter's `cert/der_utils.rs`
+
+`Der.Safe r` = the model's answer `r` is a value or a proper error: neither `E.panic` (an index, slice,
+checked subtraction, `debug_assert!` or `copy_from_slice` of the Rust code would panic) nor `E.endless`
+(a loop ran out of fuel). `Der.Within input v` = `v` is a range `[off, off + |v|)` of `input`. -/
+
+open Codec.Der in
+/-- **the reading primitives are total and never panic**, on every well-formed reader (`Rdr.WF`: the
+invariant that `SliceReader::new` / `NestedReader::new` establish and every read preserves), for
+arbitrary bytes (no range assumption on the "bytes") and any requested length -/
+theorem der_reader_total (r : Rdr) (h : r.WF) (n : Nat) :
+    Safe (r.readSlice n) ∧ Safe r.readByte ∧ Safe (lengthDecode r) ∧ Safe (headerDecode r) ∧
+    Safe (anyDecode r) ∧ Safe r.finish ∧ Safe (nestedNew r n) :=
+  ⟨readSlice_safe h n, readByte_safe h, lengthDecode_safe h, headerDecode_safe h, anyDecode_safe h,
+   finish_safe h, nestedNew_safe h n⟩
+example : ∃ r, Codec.Der.Rdr.new [0x30, 0x00] = .ok r ∧ r.WF :=
+  ⟨.slice [0x30, 0x00] 0, rfl, by decide, by decide⟩
+
+open Codec.Der in
+/-- **every slice a read returns is the range `[offset, offset + n)` of the input, inside the input**,
+the reader advances by exactly `n` and stays well formed (same input, same nesting) -/
+theorem der_read_slice_within (r : Rdr) (h : r.WF) (n : Nat) (s : List Nat) (r' : Rdr)
+    (hr : r.readSlice n = .ok (s, r')) :
+    s = (r.input.drop r.offset).take n ∧ s.length = n ∧ r.offset + n ≤ r.input.length ∧
+    r'.offset = r.offset + n ∧ r'.input = r.input ∧ r'.WF ∧ r'.shape = r.shape := by
+  obtain ⟨h1, h2, h3, h4, h5, _, _, h8⟩ := readSlice_spec h hr
+  have := h5.offset_le
+  rw [h3, h4] at this
+  exact ⟨h1, h2, this, h3, h4, h5, h8⟩
+example : (Codec.Der.Rdr.slice [1, 2, 3] 1).readSlice 2 = .ok ([2, 3], .slice [1, 2, 3] 3) := rfl
+
+open Codec.Der in
+/-- **`AnyRef::decode`: the value lies inside the input, at least two octets behind the old offset, and
+the reader moves strictly forward to its end** -/
+theorem der_any_within_and_progress (r : Rdr) (h : r.WF) (tag : Nat) (v : List Nat) (r' : Rdr)
+    (hr : anyDecode r = .ok ((tag, v), r')) :
+    ∃ hl, 2 ≤ hl ∧ v = (r.input.drop (r.offset + hl)).take v.length ∧
+      r.offset + hl + v.length ≤ r.input.length ∧ r'.offset = r.offset + hl + v.length ∧ r'.WF := by
+  obtain ⟨hl, h1, h2, h3, h4⟩ := anyDecode_spec h hr
+  exact ⟨hl, h1, h2, h3, by rw [h4.off]; omega, h4.wf⟩
+example : Codec.Der.anyDecode (.slice [0x02, 0x01, 0x05] 0) = .ok ((2, [5]), .slice [0x02, 0x01, 0x05] 3) := rfl
+
+open Codec.Der in
+/-- **DER is canonical in this reader**: whatever `AnyRef::from_der` accepts is exactly
+`identifier ‖ minimal length octets ‖ value` of what it returns — over-long (non-minimal) lengths, the
+indefinite form, lengths above 256 MiB and trailing bytes are all refused -/
+theorem der_from_der_canonical (bytes : List Nat) (hbytes : ∀ b ∈ bytes, b < 256) (tag : Nat) (v : List Nat)
+    (h : fromDerAny bytes = .ok (tag, v)) : bytes = encTlv tag v :=
+  fromDerAny_canonical hbytes h
+example : Codec.Der.fromDerAny [0x04, 0x02, 0xAA, 0xBB] = .ok (4, [0xAA, 0xBB]) := rfl
+/-- samples of the refusal (tests, not the theorem): non-minimal long form, indefinite form, length-of-length 8 -/
+example : Codec.Der.fromDerAny [0x04, 0x81, 0x01, 0xAA] = .error .length ∧
+    Codec.Der.fromDerAny [0x30, 0x80, 0x00, 0x00] = .error .indefiniteLength ∧
+    Codec.Der.fromDerAny [0x04, 0x88, 0xff, 0xff, 0xff, 0xff, 0xff, 0xff, 0xff, 0xff] = .error .length := ⟨rfl, rfl, rfl⟩
+
+open Codec.Der in
+/-- **round trip of the element layer**: `from_der (encTlv tag v) = (tag, v)` for every tag octet that
+`Tag::try_from` knows and every value whose encoding fits `Length::MAX` -/
+theorem der_from_der_encode (tag : Nat) (v : List Nat) (ht : tagOfByte tag = .ok tag)
+    (hmax : (encTlv tag v).length ≤ MAX_LEN) : fromDerAny (encTlv tag v) = .ok (tag, v) :=
+  fromDerAny_enc ht hmax
+example : Codec.Der.tagOfByte 0x30 = .ok 0x30 ∧ (Codec.Der.encTlv 0x30 [5, 0]).length ≤ Codec.Der.MAX_LEN := ⟨rfl, by decide⟩
+
+open Codec.Der in
+/-- **`Length::decode` inverts the minimal length octets (all five forms) and accepts nothing else** -/
+theorem der_length_roundtrip_and_canonical :
+    (∀ (bytes : List Nat) (pos n : Nat) (rest : List Nat), bytes.drop pos = encLen n ++ rest → n ≤ MAX_LEN →
+      bytes.length ≤ MAX_LEN →
+      lengthDecode (.slice bytes pos) = .ok (n, .slice bytes (pos + (encLen n).length))) ∧
+    (∀ (r : Rdr), r.WF → (∀ b ∈ r.input, b < 256) → ∀ (l : Nat) (r' : Rdr), lengthDecode r = .ok (l, r') →
+      l ≤ MAX_LEN ∧ (r.input.drop r.offset).take (encLen l).length = encLen l ∧
+      r'.offset = r.offset + (encLen l).length) :=
+  ⟨fun _ _ _ _ hd hn hmax => lengthDecode_encLen hd hn hmax,
+   fun r h hb l r' hr => by
+     obtain ⟨h1, h2, h3⟩ := lengthDecode_spec h hb hr
+     exact ⟨h1, h3, h2.off⟩⟩
+
+open Codec.Der in
+/-- **truncation is refused**: every strict prefix of an element is an error (never a value, never a panic) -/
+theorem der_truncated_rejected (tag : Nat) (v : List Nat) (hbytes : ∀ b ∈ encTlv tag v, b < 256) (k : Nat)
+    (hk : k < (encTlv tag v).length) : ∃ e, fromDerAny ((encTlv tag v).take k) = .error e ∧ e ≠ .panic :=
+  fromDerAny_truncated hbytes k hk
+example : ∀ b ∈ Codec.Der.encTlv 0x04 [1, 2, 3], b < 256 := by decide
+
+open Codec.Der in
+/-- **iteration over a sequence terminates and consumes strictly**: the `while !is_finished() { AnyRef::decode }`
+loop (`MatterDnAttrs::parse`, `ParsedExtensionFields::parse`), started with fuel `|input| + 1`, never runs out
+of fuel and never panics — both on a plain reader (`seqItems`) and inside `reader.sequence(…)` + `finish`
+(`sequenceItems`, the shape of every `decode_value`); all item values are ranges of the input -/
+theorem der_sequence_iteration_total (bytes : List Nat) :
+    (match seqItems bytes with
+      | .error (e, _) => e ≠ .panic ∧ e ≠ .endless
+      | .ok l => ∀ it ∈ l, Within bytes it.2) ∧
+    (match sequenceItems bytes with
+      | .error e => e ≠ .panic ∧ e ≠ .endless
+      | .ok l => ∀ it ∈ l, Within bytes it.2) :=
+  ⟨seqItems_spec bytes, sequenceItems_spec bytes⟩
+example : Codec.Der.sequenceItems [0x30, 5, 2, 1, 5, 5, 0] = .ok [(2, [5]), (5, [])] := rfl
+
+open Codec.Der in
+/-- **`cert/der_utils.rs` is total**: `ecdsa_der_to_raw` and `copy_integer_to_fixed` never panic (the
+`src[0]`, `&src[1..]`, `target.len() - src.len()`, `target[..offset]`, `copy_from_slice` of the Rust code are
+checked operations in the model) and the zero-stripping loop terminates; `copy_integer_to_fixed` answers
+`Invalid` exactly when the stripped integer does not fit, else the integer right-aligned in `n` bytes -/
+theorem ecdsa_der_total (der integer : List Nat) (n : Nat) :
+    Safe (ecdsaDerToRaw der) ∧ Safe (copyIntegerToFixed n integer) ∧
+    copyIntegerToFixed n integer =
+      (if (stripZeros integer).length > n then .error .invalid else .ok (padLeft n (stripZeros integer))) ∧
+    (∀ out, copyIntegerToFixed n integer = .ok out → out.length = n) :=
+  ⟨ecdsaDerToRaw_safe der, copyIntegerToFixed_safe n integer, copyIntegerToFixed_eq n integer,
+   fun _ h => copyIntegerToFixed_length h⟩
+
+open Codec.Der in
+/-- **signature round trip**: the DER `SEQUENCE { INTEGER r, INTEGER s }` of two minimal big-endian
+magnitudes of at most 32 bytes decodes to `r‖s`, each half left-padded to 32 bytes -/
+theorem ecdsa_der_roundtrip (r s : List Nat) (hr : Canon 32 r) (hs : Canon 32 s) :
+    ecdsaDerToRaw (encSig r s) = .ok (padLeft 32 r ++ padLeft 32 s) :=
+  ecdsaDerToRaw_encSig hr hs
+example : Codec.Der.Canon 32 [0x43, 0xa6, 0x3f] ∧ Codec.Der.Canon 32 [] ∧ Codec.Der.Canon 32 (List.replicate 32 0xff) := by
+  refine ⟨⟨by decide, by decide, by decide⟩, ⟨by decide, by decide, by decide⟩, ⟨by decide, by decide, by decide⟩⟩
 
 end C17
